@@ -99,6 +99,11 @@ def mapAtL (f : Q → Option Q) : Nat → List Step → List Q → Option (List 
   | i + 1, p, q :: qs => (mapAtL f i p qs).map (q :: ·)
 end
 
+/-- several MetaData calls attached one after the other, each at a valid position of the term built so far -/
+def attachMany : List (List Step × Q) → Q → Option Q
+  | [], q => some q
+  | (p, m) :: rest, q => if validPos p q then (attachAt m p q).bind (attachMany rest) else none
+
 /-! ### defect exclusions -/
 
 mutual
